@@ -52,6 +52,7 @@ class TemplateInterp:
     def __init__(self, typer, self_name='self', effect_hook=None):
         self.typer = typer
         self.effect_hook = effect_hook
+        self.format_on_holes = []      # (hole type, source expression, line) of holes found inside a format template
 
     # value representation: ('str', [segments]) | ('strlist', elemtype, sep-less) | ('other', node)
     def ev(self, node, st):
@@ -148,11 +149,20 @@ class TemplateInterp:
             kw = {k.arg: self.ev(k.value, st) for k in node.keywords}
             out = []
             auto = 0
-            for seg in tmpl[1]:
+            for seg in merge_lits(tmpl[1]):
                 if seg[0] != 'lit':
-                    out.append(seg)   # a hole inside the template string: stays a hole (not re-parsed)
+                    # a hole INSIDE the string that .format() is called on: Python parses that text as format
+                    # syntax, so a brace in it raises (KeyError / IndexError / ValueError) or splices another
+                    # argument in.  Recorded for the lemma drivers, which report it as a refuted obligation.
+                    for h in ([seg] if seg[0] == 'hole' else [x for x in _holes_of(seg)]):
+                        self.format_on_holes.append((h[1], h[2], getattr(node, 'lineno', 0)))
+                    out.append(seg)
                     continue
-                for text, field, spec, conv in _string.Formatter().parse(seg[1]):
+                try:
+                    fields = list(_string.Formatter().parse(seg[1]))
+                except ValueError as e:
+                    raise Unsupported('format template %r: %s' % (seg[1][:40], e), node)
+                for text, field, spec, conv in fields:
                     if text:
                         out.append(lit(text))
                     if field is None:
@@ -295,6 +305,18 @@ class TemplateInterp:
         """Record facts learnt from a branch condition (used by typers, e.g. token.align cases)."""
         st.env.setdefault('__facts__', ())
         st.env['__facts__'] = st.env['__facts__'] + ((ast.unparse(test), truth),)
+
+
+def _holes_of(seg):
+    if seg[0] == 'hole':
+        yield seg
+    elif seg[0] == 'rep':
+        for x in seg[1]:
+            yield from _holes_of(x)
+    elif seg[0] == 'alt':
+        for alt in seg[1]:
+            for x in alt:
+                yield from _holes_of(x)
 
 
 def flatten(segs, choice=None):
